@@ -14,6 +14,8 @@ import (
 	"strconv"
 	"strings"
 	"sync"
+	"sync/atomic"
+	"time"
 )
 
 // ---------------------------------------------------------------- PRNG (splitmix64)
@@ -250,4 +252,34 @@ func TempDir() string {
 		}
 	}
 	return d
+}
+
+// Watchdog guards a virtual-time stream against a call into the code under test that never returns
+// (a leaked mutex: not a durable block, so synctest does not report it and the run would only end by
+// the test timeout, losing every finding). The stream calls tick() between operations; if no tick
+// arrives for `stall` of REAL time the watchdog records a violation with describe() as the replay,
+// writes the result file and ends the process (the check accepts a checkpointed result of a stream
+// that ended abnormally). Start it OUTSIDE any synctest bubble.
+func Watchdog(res *Result, prop, sig string, stall time.Duration, describe func() any) (tick func()) {
+	var n atomic.Int64
+	go func() {
+		last, since := int64(-1), time.Now()
+		for {
+			time.Sleep(time.Second)
+			if v := n.Load(); v != last {
+				last, since = v, time.Now()
+				continue
+			}
+			if time.Since(since) < stall {
+				continue
+			}
+			res.Find(Finding{Kind: "violation", Property: prop, Signature: sig,
+				What:   fmt.Sprintf("a call into the code under test has not returned for %s of real time in a virtual-time run where every call takes microseconds: it is blocked for good (deadlock / leaked mutex); every call must return", stall),
+				Replay: describe()})
+			res.Note("stream ended by its watchdog after the stalled call")
+			res.Write()
+			os.Exit(1)
+		}
+	}()
+	return func() { n.Add(1) }
 }
